@@ -5,8 +5,8 @@ CONSTANTS
   RefsAtIgnoresBlock = FALSE
   KeepStaleRad = FALSE
   SkipUnloaded = FALSE
-  Family = {"focus", "refsat", "scope"}
-  Junks = {"none", "extra"}
+  Family = {"focus", "refsat", "scope", "pair"}
+  Junks = {"none", "extra", "moved", "missing"}
   DelCount = {1, 2, 3}
   LocalChoices = {0, 1}
 INIT MCInit
